@@ -18,6 +18,11 @@ use qbase::{
 struct RawDatagramWriter {
     /// The queue that stores the datagram frame to send.
     datagrams: VecDeque<Bytes>,
+    /// The peer's `max_datagram_frame_size`, known once a writer has been created.
+    ///
+    /// It limits the size of the whole frame (type, length and data), so it also decides
+    /// whether the length of a datagram may be encoded.
+    max_frame_size: usize,
     tx_wakers: ArcSendWakers,
 }
 
@@ -25,6 +30,7 @@ impl RawDatagramWriter {
     fn new(tx_wakers: ArcSendWakers) -> Self {
         Self {
             datagrams: VecDeque::new(),
+            max_frame_size: usize::MAX,
             tx_wakers,
         }
     }
@@ -47,7 +53,7 @@ impl DatagramOutgoing {
     /// or datagram is disenabled by peer(`max_datagram_frame_size` is `0`)
     pub fn new_writer(&self, max_datagram_frame_size: u64) -> io::Result<DatagramWriter> {
         let mut guard = self.0.lock().unwrap();
-        let _writer = guard.as_mut().map_err(|e| e.clone())?;
+        let writer = guard.as_mut().map_err(|e| e.clone())?;
         if max_datagram_frame_size == 0 {
             tracing::error!("   Cause by: DatagramOutgoing::new_writer");
             return Err(io::Error::new(
@@ -55,6 +61,7 @@ impl DatagramOutgoing {
                 "Unreliable Datagram Extension was disenabled by peer's parameters",
             ));
         }
+        writer.max_frame_size = max_datagram_frame_size as _;
         Ok(DatagramWriter {
             writer: self.0.clone(),
             max_datagram_frame_size: max_datagram_frame_size as _,
@@ -145,9 +152,11 @@ impl DatagramOutgoing {
         let data_len = VarInt::try_from(data.len()).unwrap();
         let frame_without_len = DatagramFrame::new(false, data_len);
         let frame_with_len = DatagramFrame::new(true, data_len);
+        // the length field counts toward the peer's max_datagram_frame_size
+        let len_allowed = frame_with_len.encoding_size() + data.len() <= writer.max_frame_size;
         match max_encoding_size {
             // Encode length
-            n if n >= frame_with_len.encoding_size() => {
+            n if n >= frame_with_len.encoding_size() && len_allowed => {
                 (frame_with_len, data).dump(packet).unwrap();
             }
             // Do not encode length, may need padding
